@@ -427,6 +427,16 @@ func runC09Case(c *fw.Ctx, id string, v refmatch.Variant, wl c09Workload, w wind
 							e.inject(mm, "noise:handshake", nil, 0)
 							injected++
 						}
+						// well-formed SYN-ACKs of OTHER connections of the same target (the SYN-ACK filter lets every SYN-ACK
+						// through) whose options are hostile: truncated or over-long timestamps, SACK-permitted / MSS with a
+						// wrong length, length 0 and 1, no options at all. Nothing about them concerns the probed connection.
+						for i, opts := range [][]byte{
+							{8, 6, 1, 2, 3, 4, 1, 1}, {8, 2, 1, 1}, {8, 9, 1, 2, 3, 4, 5, 6, 7, 1, 1, 1}, {4, 3, 0, 1}, {2, 3, 5, 1},
+							{8, 0, 1, 1}, {8, 1, 1, 1}, {4, 2, 8, 4, 1, 2}, nil, {1, 1, 1, 8}} {
+							b := gen.TCPReply(e.spec.Target, drive.Local4, e.spec.Port, uint16(2000+i*7+r.Intn(5)), 0x51000000, uint32(r.Int63()), wirefmt.TCPSyn|wirefmt.TCPAck, opts, nil, nil)
+							e.inject(b, "noise:handshake-foreign-options", nil, 0)
+							injected++
+						}
 					}
 				}
 				m.extra = func(e *simEnv, p *refmatch.Probe) {
